@@ -20,13 +20,21 @@ def lik(cid):
     return 0.0 if cid == 99 else (2.0 ** (cid - 50) if cid > 50 else 2.0 ** (-cid))
 
 
-def abstract_cost(v):
+def units(cid):
+    """cost of a wire id in units of ln 2 (ids >= 100: logarithms handed over directly, -(1000 a + b) ln 2 for 100 + 10 a + b)"""
+    return 1000 * ((cid - 100) // 10) + cid % 10 if cid >= 100 else (50 - cid if cid > 50 else cid)
+
+
+def abstract_cost(v, direct=False):
     try:
         v = float(v)
     except Exception:
         return None
     if math.isnan(v) or math.isinf(v):
         return None
+    if direct:                                   # no zero likelihoods in this family: the cost is a multiple of ln 2
+        c = round(v / LN2)
+        return [0, c] if abs(v - c * LN2) <= 1e-9 * max(1.0, abs(v)) else None
     z = int((v + 60.0) // K0)
     rem = v - z * K0
     c = round(rem / LN2)
@@ -86,6 +94,8 @@ def decode(n, P, Q, mode):
     if fixed:
         space = list(range(n[0]))
         S = lambda track, k: space
+    if mode == "logd":
+        reuse = False
     if reuse:
         tr.tid = "m%d" % _CALLS[0]
         _REG.clear()
@@ -98,6 +108,14 @@ def decode(n, P, Q, mode):
         def Pf(s, y, k, track):
             return lik(P[k][s % 100])
         hmm = HMM(S, Qf, Pf)
+    elif mode == "logd":
+        # the model is given by its LOGARITHMS (Gaussian-type models are written this way): any non-positive number is legal
+        def Qf(s1, s2, k, track):
+            return -units(Q[k][s1 % 100][s2 % 100]) * LN2
+
+        def Pf(s, y, k, track):
+            return -units(P[k][s % 100]) * LN2
+        hmm = HMM(S, Qf, Pf, log=True)
     else:
         def Qf(s1, s2, k, track):
             return math.log(lik(Q[k][s1 % 100][s2 % 100]) + 1e-300)
@@ -119,7 +137,7 @@ def decode(n, P, Q, mode):
             inf = [tr["hmm_inference", k] for k in range(T)]
             last = tr["hmm_cost", T - 1]
         e["inf"] = [[k, int(v)] for k, v in enumerate(inf)] if fixed else [[int(v) // 100, int(v) % 100] for v in inf]
-        a = abstract_cost(last)
+        a = abstract_cost(last, mode == "logd")
         if a is None:
             e["lat"] = False
             e["raw_last"] = repr(last)
@@ -180,6 +198,14 @@ def job_random(args):
             e = decode(n, P, Q, mode)
             e["brute"] = prod <= 1500
             out.append(e)
+        if rnd.random() < 0.3:
+            # logarithms handed over directly, some far below ln(1e-300): 0, ln 2, 1000 ln 2, 1001 ln 2, 2000 ln 2, 3000 ln 2
+            dids = rnd.choice([[100, 101, 110, 111], [110, 111, 120, 130], [100, 110, 120]])
+            P = [[rnd.choice(dids) for _ in range(n[k])] for k in range(T)]
+            Q = [[[rnd.choice(dids) for _ in range(n[k + 1])] for _ in range(n[k])] for k in range(T - 1)]
+            e = decode(n, P, Q, "logd")
+            e["brute"] = prod <= 1500
+            out.append(e)
     return out
 
 
@@ -198,7 +224,7 @@ def run(ctx):
                 "brute-force optimum (Bellman above 1500 sequences). Non-trivial = distinct model with >= 2 candidate sequences "
                 "that contains a zero likelihood or a repeated cost in a column (ties).")
     ctx.assumptions += ["likelihoods are 0 or powers of 2, above 1 included - unnormalised models (costs are integers in units of ln 2; one zero = -ln 1e-300)",
-                        "log mode is fed ln(likelihood + 1e-300), i.e. finite logarithms",
+                        "log mode is fed ln(likelihood + 1e-300), i.e. finite logarithms; a third of the random models are also given directly by logarithms -(1000 a + b) ln 2, far below ln 1e-300",
                         "transition function is looked up with the epoch index the implementation passes (epoch of the first state)"]
     for T in (1, 2):
         c = ctx.write_cfg("V%d.cfg" % T, mc_cfg(T, 2, [0, 1, 99], [0, 1, 99]))
@@ -207,6 +233,8 @@ def run(ctx):
     ctx.tlc_mc("Viterbi", c, label="Viterbi design check T=3 S<=2", timeout=3000)
     c = ctx.write_cfg("V3u.cfg", mc_cfg(3, 2, [0, 1], [51, 0, 1]))
     ctx.tlc_mc("Viterbi", c, label="Viterbi design check T=3 S<=2, transition likelihoods above 1", timeout=3000)
+    c = ctx.write_cfg("V2d.cfg", mc_cfg(2 if quick else 3, 2, [100, 110, 111], [110, 120]))
+    ctx.tlc_mc("Viterbi", c, label="Viterbi design check, logarithms handed over directly (costs 0, 1000, 1001, 2000 ln 2)", timeout=3000)
     if not quick:
         c = ctx.write_cfg("V23.cfg", mc_cfg(2, 3, [0, 1, 99], [0, 1, 99]))
         ctx.tlc_mc("Viterbi", c, label="Viterbi design check T=2 S<=3", timeout=3000)
